@@ -256,8 +256,56 @@ def shared_objects(rep, rnd, tier):
     b.run()
 
 
+def front_histories(rep, rnd, tier):
+    """one long-lived front end (several contexts on one interface, some accepting the same packets) against a fresh front end built
+    for every call from the serialised contexts: what it did before must not change what it does now, nor the order of its contexts"""
+    from p_c15 import load_front
+    SCHC = load_front()
+    nh = 25 if tier == 'quick' else 250
+    for h in range(nh):
+        stack = STACKS[h % len(STACKS)]
+        nctx = rnd.randint(2, 4)
+        seeds = [gen_parsed(rnd, stack) for _ in range(nctx)]
+        from schc_util import prefix_free_ids
+        ids = prefix_free_ids(rnd, 2 * nctx + 1)
+        ctxs = []
+        for k in range(nctx):
+            pd = seeds[k][3]
+            pd.direction = DI.UP
+            rules = [gen_rule(rnd, pd, ids[2 * k], kinds=('ns', 'map', 'lsb', 'vs')), gen_rule(rnd, pd, ids[2 * k + 1], kinds=('vs', 'vsv', 'lsbv'))]
+            if k == nctx - 1 and rnd.random() < 0.5:
+                from gens import no_compression_rule
+                rules.append(no_compression_rule(ids[2 * nctx]))
+            ctxs.append(Context(id=['zulu', 'alpha', 'mike', 'B'][k], description='', interface_id='if0', parser_id=stack, ruleset=rules))
+        texts = [c.json() for c in ctxs]
+        front = SCHC(ctxs)
+        order0 = [c.json() for c in ctxs]
+        for step in range(12):
+            pkt = rnd.choice(seeds)[1] if rnd.random() < 0.85 else gen_packet(rnd)[1]
+            fresh = SCHC([Context.from_json(t) for t in texts])
+            o1 = obs_bits(with_timeout(lambda: front.compress(Buffer(pkt, len(pkt) * 8), 'if0')))
+            o2 = obs_bits(with_timeout(lambda: fresh.compress(Buffer(pkt, len(pkt) * 8), 'if0')))
+            rep.count('front-history:compress', key=('fh', h, step))
+            rep.oracle_evals += 1
+            case = dict(layer='history', op='front-end', stack=stack, step=step, packet=pkt.hex(), contexts=texts)
+            if o1 != o2:
+                rep.violation('property', 'front end history, step %d: the long-lived front end compresses to %s, a fresh one to %s' % (step, str(o1)[:80], str(o2)[:80]), case)
+                return
+            if o1[0] == 'OK' and isinstance(o1[1], str):
+                d1 = obs_bits(with_timeout(lambda: front.decompress(mk(o1[1], R), 'if0')))
+                d2 = obs_bits(with_timeout(lambda: fresh.decompress(mk(o1[1], R), 'if0')))
+                rep.count('front-history:decompress', key=('fhd', h, step))
+                if d1 != d2:
+                    rep.violation('property', 'front end history, step %d: the long-lived front end decompresses to %s, a fresh one to %s' % (step, str(d1)[:80], str(d2)[:80]), case)
+                    return
+            if [c.json() for c in ctxs] != order0:
+                rep.violation('property', 'front end history, step %d: the contexts given to the front end changed' % step, case)
+                return
+
+
 def run(rep, tier, seed):
     bc.run_family(rep, 'C16', tier, seed)
+    front_histories(rep, rng_for(seed, 'C16-front'), tier)
     rnd = rng_for(seed, 'C16-histories')
     histories(rep, rnd, tier)
     shared_objects(rep, rnd, tier)
